@@ -14,6 +14,8 @@ structure St where
   indent : Nat := 0
   pad0 : Nat := 0
   pad1 : Nat := 0
+  bld : Bool := false
+  nodes : List (Node × Option Str) := []
 
 def splitOnChar (c : Char) (s : String) : List String := (s.splitOn (String.singleton c))
 
@@ -91,6 +93,18 @@ def splitMon (line : String) : Option (List String × Str) :=
   | head :: t :: ts => some (words head, unescape (" =".intercalate (t :: ts)).toList)
   | _ => none
 
+def parseNode (ws : List String) : Option (Node × Option Str) :=
+  match ws with
+  | "inst" :: id :: opts :: extra :: comment :: ops =>
+    match id.toNat?, parseHex? opts, parseExtra extra, optComment comment, ops.mapM parseOperand with
+    | some id, some opts, some extra, some comment, some ops => some (.inst id opts extra ops, comment)
+    | _, _, _, _, _ => none
+  | ["label", id] => id.toNat?.map fun i => (.label i, none)
+  | ["align", mode, n] => do let m ← mode.toNat?; let n ← n.toNat?; some (.align m n, none)
+  | ["embed", size, count, rep] => do let a ← size.toNat?; let b ← count.toNat?; let c ← rep.toNat?; some (.embedData a b c, none)
+  | ["comment", t] => (hexToStr? t).map fun t => (.comment t, none)
+  | _ => none
+
 def verdict (b : Bool) (why : String) : String := if b then "good" else "BAD " ++ why
 
 def step (st : St) (line : String) : St × String :=
@@ -102,6 +116,8 @@ def step (st : St) (line : String) : St × String :=
     match a?, kind with
     | some a, "asm" => ({ env := { arch := a, labels := some [], vregs := none }, inited := true : St }, "ok")
     | some a, "comp" => ({ env := { arch := a, labels := some [], vregs := some [] }, inited := true : St }, "ok")
+    | some a, "bld" => ({ env := { arch := a, labels := some [], vregs := none }, inited := true, bld := true,
+                          nodes := [(.section ".text".toList, none)] : St }, "ok")
     | _, _ => bad
   | ["num", k, v, base, width, fl] =>
     match parseHex? v, base.toNat?, width.toNat?, fl.toNat? with
@@ -154,6 +170,12 @@ def step (st : St) (line : String) : St × String :=
     match parseOperand o with
     | some o => (st, "=" ++ escape (formatOperand st.flags st.env o))
     | none => bad
+  | ["nodelist"] => (st, "=" ++ escape (formatNodeList st.flags st.env st.pad0 st.nodes))
+  | "node" :: rest =>
+    match parseNode rest with
+    | some (n, inl) =>
+      ({ st with nodes := st.nodes ++ [(n, inl)] }, "=" ++ escape (formatNode st.flags st.env st.pad0 n inl))
+    | none => bad
   | "inst" :: id :: opts :: extra :: ops =>
     match id.toNat?, parseHex? opts, parseExtra extra, ops.mapM parseOperand with
     | some id, some opts, some extra, some ops => (st, "=" ++ escape (formatInstruction st.flags st.env id opts extra ops))
@@ -182,6 +204,10 @@ def step (st : St) (line : String) : St × String :=
       | some id, some opts, some extra, some ops =>
         (st, verdict (monInstruction st.env st.flags id opts extra ops [] text) "instruction-text-does-not-denote-the-instruction")
       | _, _, _, _ => bad
+    | "mon_node" :: rest =>
+      match parseNode rest with
+      | some (n, inl) => (st, verdict (monNode st.env st.flags n inl text) "node-text-does-not-denote-the-node")
+      | none => bad
     | "mon_emit" :: id :: opts :: extra :: comment :: bytes :: ops =>
       match id.toNat?, parseHex? opts, parseExtra extra, optComment comment, hexToNats? bytes, ops.mapM parseOperand with
       | some id, some opts, some extra, some comment, some bytes, some ops =>
